@@ -431,4 +431,59 @@ def dstableL (p : PCfg) (ctx : Ctx) : Bool → List Node → Bool
 end
 
 
+/-! ### how much the character data grows on a second round trip (0 iff `DoctypeStable`) -/
+
+/-- ASCII whitespace only -/
+def isSp (p : PCfg) (x : PStr) : Bool := x.all fun c => p.asciiSpaces.contains c
+
+/- total length of the character data of a forest -/
+mutual
+def tlenN : Node → Nat
+  | .tag _ ks => tlenL ks
+  | .str c s =>
+    match strKind c s with
+    | .text t => t.length
+    | .special _ _ _ => 0
+def tlenL : List Node → Nat
+  | [] => 0
+  | n :: ns => tlenN n + tlenL ns
+end
+
+
+/-- does the run of text after a doctype keep its newline visible: in a preserve-whitespace context always, else as
+    soon as a chunk is not whitespace -/
+def brkText (p : PCfg) (after brk : Bool) (t : PStr) : Bool := brk || (after && !isSp p t)
+
+def owed (after brk : Bool) : Nat := if after && brk then 1 else 0
+
+mutual
+/-- growth inside a node (its children are closed at its end tag) -/
+def growN (p : PCfg) (ctx : Ctx) : Node → Nat
+  | .tag i ks =>
+    let r := growL p (pushCtx p ctx (fullName i)) false false ks
+    r.1 + owed r.2.1 r.2.2
+  | .str _ _ => 0
+/-- growth over a run of siblings: (flushes that grew, pending doctype newline?, its run already visible?) -/
+def growL (p : PCfg) (ctx : Ctx) : Bool → Bool → List Node → Nat × Bool × Bool
+  | after, brk, [] => (0, after, brk)
+  | after, brk, n :: ns =>
+    match n with
+    | .tag i ks =>
+      let r := growL p ctx false false ns
+      (owed after brk + growN p ctx (.tag i ks) + r.1, r.2)
+    | .str c s =>
+      match strKind c s with
+      | .text t =>
+        if t.isEmpty then growL p ctx after brk ns else growL p ctx after (brkText p after brk t) ns
+      | .special _ _ nl =>
+        let r := growL p ctx nl (nl && ctx.pres) ns
+        (owed after brk + r.1, r.2)
+end
+
+/-- the total growth of a closed forest -/
+def grow (p : PCfg) (ctx : Ctx) (ds : List Node) : Nat :=
+  let r := growL p ctx false false ds
+  r.1 + owed r.2.1 r.2.2
+
+
 end BS.Render
